@@ -163,6 +163,18 @@ fn check_spec(spec: &RuleSpec, extra: &[MObj], level: u8) -> Stats {
     docs.extend(extra.iter().cloned());
     let mut t = false;
     let mut f = false;
+    // the rule as loaded and in optimised forms (the optimised forms evaluate cells through
+    // other solver arms); each form is compared with itself on the model document
+    let mut forms: Vec<(u8, tau_engine::Rule)> = vec![(0, rule.clone())];
+    for sw in [0b1111u8, 0b1000, 0b1010, 0b0110] {
+        if let Ok((o, _)) = eng::optimise_with(&rule, sw, &[]) {
+            if eng::canon(&o) != eng::canon(&rule) && forms.iter().all(|(_, x)| eng::canon(x) != eng::canon(&o)) {
+                forms.push((sw, o));
+            }
+        }
+    }
+    for (sw, rule) in &forms {
+    let sw = *sw;
     for (di, d) in docs.iter().enumerate() {
         let base = eng::matches(&rule, d);
         if base == Ok(true) {
@@ -199,12 +211,13 @@ fn check_spec(spec: &RuleSpec, extra: &[MObj], level: u8) -> Stats {
             st.evaluations += 1;
             if got != base {
                 st.push_violation(Violation {
-                    signature: format!("verdict-differs:{}", rep),
-                    witness: format!("{} gives {:?}, the model document gives {:?} ; rule {} doc {}", rep, got, base, one_line(&yaml), d.show()),
-                    replay: json!({"kind":"representation","rule_yaml":yaml,"document":crate::report::mobj_to_json(d),"representation":rep}),
+                    signature: format!("verdict-differs:{}{}", rep, if sw == 0 { "" } else { ":optimised" }),
+                    witness: format!("{} gives {:?}, the model document gives {:?} (optimise({})) ; rule {} doc {}", rep, got, base, eng::sw_name(sw), one_line(&yaml), d.show()),
+                    replay: json!({"kind":"optimise","rule_yaml":yaml,"sw_bits":sw,"hash_order_choices":[],"document":crate::report::mobj_to_json(d),"representation":rep}),
                 });
             }
         }
+    }
     }
     if t && f {
         st.nontrivial += 1;
@@ -326,6 +339,22 @@ pub fn run(tier: Tier) -> i32 {
     rep.stats.merge(adapters());
     let extra = extreme_docs();
     let mut specs: Vec<RuleSpec> = numeric_specs();
+    {
+        // quantifiers over an identifier whose alternatives share an integer-equality field
+        // (these stay matrices inside `identifiers` when coalesce is off)
+        use crate::gen::{e, int, st as gs, Body};
+        let rows = Body::Seq(vec![
+            vec![e("f", int(1)), e("g", int(3))],
+            vec![e("f", int(1)), e("h", int(5))],
+            vec![e("f", int(2))],
+        ]);
+        let rows2 = Body::Seq(vec![vec![e("f", int(0)), e("g", gs("x"))], vec![e("f", int(-1))], vec![e("g", gs("a*")), e("f", int(1))]]);
+        for body in [rows, rows2] {
+            for cond in ["all(A)", "of(A, 1)", "of(A, 2)", "not of(A, 1)", "A"] {
+                specs.push(RuleSpec { idents: vec![("A".into(), body.clone())], cond: cond.into() });
+            }
+        }
+    }
     specs.extend(gen::universe(0).into_iter().step_by(if th { 1 } else { 5 }));
     if th {
         specs.extend(gen::family_single(1).into_iter().step_by(2));
@@ -338,7 +367,7 @@ pub fn run(tier: Tier) -> i32 {
     }
     rep.stats.sample(json!({"document":"{f: 18446744073709551615u}","representations":["model (hand-written Object)","serde_yaml::Mapping","serde_json::Value","serde_json::Map","HashMap<String, u64/usize>","hand-written Document","&dyn Object"]}));
     rep.stats.sample(json!({"adapter":"i8","values":[-128,127,0,1,63],"oracle":"Value::Int with the same value"}));
-    rep.rule = "model documents (the per-field product of the shared alphabets plus 81 documents over the 64-bit / double extremes, nested and inside arrays) rendered into every supported representation: serde_yaml::Mapping, serde_json::Value and Map (NaN/inf skipped), HashMap<String,_> built only from std types through the shipped adapters (integer width rotated so that every adapter is used), a hand-written Document with its own path resolution, and &dyn Object; x the numeric rule family (every key modifier x boundary constants, cast comparisons) and the shared universe. Oracle: every representation gives the verdict of the model document; each std adapter yields the value kind with the same numeric value and signedness (Value inspected directly). non-trivial = rule is discriminating".into();
+    rep.rule = "model documents (the per-field product of the shared alphabets plus 81 documents over the 64-bit / double extremes, nested and inside arrays) rendered into every supported representation: serde_yaml::Mapping, serde_json::Value and Map (NaN/inf skipped), HashMap<String,_> built only from std types through the shipped adapters (integer width rotated so that every adapter is used), a hand-written Document with its own path resolution, and &dyn Object; x the numeric rule family (every key modifier x boundary constants, cast comparisons) and the shared universe. every rule as loaded and in up to four optimised forms. Oracle: every representation gives the verdict of the model document (same form of the rule); each std adapter yields the value kind with the same numeric value and signedness (Value inspected directly). non-trivial = rule is discriminating".into();
     rep.assumptions = vec!["f32 values are compared after exact widening to f64".into()];
     rep.finish()
 }
